@@ -26,17 +26,24 @@ Section Frame.
     (m_type m = MsgAppResp -> m_reject m = false -> m_index m <= ga s (m_from m) (m_term m)) /\
     (m_type m = MsgHeartbeat ->
        m_commit m <= ga s (m_to m) (m_term m) /\ CP c0 c1 s (m_term m) (m_commit m)) /\
-    (m_type m = MsgVote -> m_term m <= n_term (nodes s (m_from m))).
+    (m_type m = MsgVote -> m_term m <= n_term (nodes s (m_from m))) /\
+    (m_type m = MsgSnap ->
+       LL s (m_term m) <> [] /\
+       m_ents m = firstn (m_index m) (LL s (m_term m)) /\
+       m_index m <= length (LL s (m_term m)) /\
+       m_logterm m = term_at (LL s (m_term m)) (m_index m) /\
+       CP c0 c1 s (m_term m) (m_index m)).
 
   Lemma inv_msg_ok : forall s m, Inv c0 c1 s -> In m (msgs s) -> msg_ok s m.
   Proof.
-    intros s m I Hm. unfold msg_ok. split; [|split; [|split; [|split; [|split]]]].
+    intros s m I Hm. unfold msg_ok. split; [|split; [|split; [|split; [|split; [|split]]]]].
     - intros Ht Hr. apply (hA4 _ _ _ I); assumption.
     - intros Ht. apply (hW9 _ _ _ I m Hm Ht).
     - intros Ht Hr Htm. apply (hW10 _ _ _ I m Hm Ht Hr Htm).
     - intros Ht Hr. apply (hK4 _ _ _ I); assumption.
     - intros Ht. apply (hK10 _ _ _ I m Hm Ht).
     - intros Ht. apply (hW12 _ _ _ I m Hm Ht).
+    - intros Ht. apply (hW13 _ _ _ I m Hm Ht).
   Qed.
 
   Lemma inv_add_msgs : forall s out,
@@ -49,7 +56,8 @@ Section Frame.
     - intros m Hm Ht Hr. exact (proj1 (Hall m Hm) Ht Hr).
     - intros m Hm Ht. exact (proj1 (proj2 (Hall m Hm)) Ht).
     - intros m Hm Ht. exact (proj1 (proj2 (proj2 (Hall m Hm))) Ht).
-    - intros m Hm Ht. exact (proj2 (proj2 (proj2 (proj2 (proj2 (Hall m Hm))))) Ht).
+    - intros m Hm Ht. exact (proj1 (proj2 (proj2 (proj2 (proj2 (proj2 (Hall m Hm)))))) Ht).
+    - intros m Hm Ht. exact (proj2 (proj2 (proj2 (proj2 (proj2 (proj2 (Hall m Hm)))))) Ht).
     - intros m Hm Ht Hr. exact (proj1 (proj2 (proj2 (proj2 (Hall m Hm)))) Ht Hr).
     - intros m Hm Ht. exact (proj1 (proj2 (proj2 (proj2 (proj2 (Hall m Hm))))) Ht).
   Qed.
@@ -185,6 +193,7 @@ Section Frame.
       + rewrite Hnd in * by exact Hx. apply (hW11 _ _ _ I x Hr e He).
     - (* iW12 *) intros m Hm Ht. unfold nd. change (In m (msgs s)) in Hm.
       pose proof (hW12 _ _ _ I m Hm Ht) as H. unfold nd in H. pose proof (Hterm' (m_from m)). lia.
+    - exact (hW13 _ _ _ I).
     - exact (hK1 _ _ _ I).
     - (* iK2 *) intros x t Hg. unfold nd. change (0 < ga s x t) in Hg.
       pose proof (hK2 _ _ _ I x t Hg) as H. unfold nd in H. pose proof (Hterm' x). lia.
